@@ -39,20 +39,23 @@ fn swar_match_path_vectored(buf: &[u8]) -> usize {
     while i + BLOCK_SIZE <= len {
         let x = unsafe { core::ptr::read_unaligned(buf.as_ptr().add(i) as *const usize) };
 
-        // byte-equality for '?' and ' ':
+        // byte-equality for '?':
         // hit(c) = ((x ^ C) - 0x01) & ~(x ^ C) & 0x80 per byte
         const ONE: usize = uniform_block(0x01);
         const M128: usize = uniform_block(0x80);
         const QQ: usize = uniform_block(b'?');
-        const SP: usize = uniform_block(b' ');
+        const BM: usize = uniform_block(0x21);
+        const DEL: usize = uniform_block(0x7f);
 
         let yq = x ^ QQ;
         let hq = yq.wrapping_sub(ONE) & !yq & M128;
 
-        let ys = x ^ SP;
-        let hs = ys.wrapping_sub(ONE) & !ys & M128;
+        // anything outside 0x21..=0x7e (SP, CR, LF, NUL, DEL, non-ASCII) ends the path too
+        let lt = x.wrapping_sub(BM) & !x;
+        let yd = x ^ DEL;
+        let eq = yd.wrapping_sub(ONE) & !yd;
 
-        let hit = hq | hs;
+        let hit = hq | ((lt | eq | x) & M128);
         if hit != 0 {
             return i + offsetnz(hit);
         }
@@ -62,7 +65,7 @@ fn swar_match_path_vectored(buf: &[u8]) -> usize {
     // read tail
     while i < len {
         let b = unsafe { *buf.get_unchecked(i) };
-        if b == b'?' || b == b' ' {
+        if b == b'?' || !is_visible_ascii(b) {
             break;
         }
         i += 1;
